@@ -27,7 +27,10 @@ type ackTap struct {
 	swap *swapMark
 }
 
-type swapMark struct{ step int }
+type swapMark struct {
+	step int
+	last os.FileInfo // the file last seen behind the log's path
+}
 
 func (t *ackTap) onWrite(e *connEnd, b []byte) {
 	w := t.w
@@ -55,6 +58,14 @@ func (t *ackTap) onWrite(e *connEnd, b []byte) {
 			return // stream message after go-live
 		}
 		path := t.inst.srv.opts.AppendFileName
+		if t.swap != nil {
+			// (the rename happens a few steps before the server re-opens the file: the file
+			// behind the path is what counts, and it may have changed within this very step)
+			if fi, err := os.Stat(path); err == nil && t.swap.last != nil && !os.SameFile(fi, t.swap.last) {
+				t.swap.last = fi
+				t.swap.step = w.step
+			}
+		}
 		if t.swap != nil && t.swap.step >= op.Invoke {
 			// A rewrite replaced the file while this command was in flight: the rewritten file
 			// holds the dataset, not the command's text (its effect may already be overwritten by
@@ -109,15 +120,14 @@ func ackIsDurableWrite(op *Op, v rv) bool {
 // installAckTaps attaches a tap to every server-side end of the actors'
 // connections (call from a step hook; cheap).
 func installAckTaps(w *World, inst *Inst, class string, checked *int) func() {
-	lastFile := inst.srv.aof
 	swap := &swapMark{step: -1}
+	swap.last, _ = os.Stat(inst.srv.opts.AppendFileName)
 	return func() {
-		if inst.srv.aof != lastFile {
-			// the log was rewritten and the file replaced during this step
-			lastFile = inst.srv.aof
+		if fi, err := os.Stat(inst.srv.opts.AppendFileName); err == nil && (swap.last == nil || !os.SameFile(fi, swap.last)) {
+			// the log was rewritten and the file behind the path replaced during this step
+			swap.last = fi
 			swap.step = w.step
 		}
-		_ = swap
 		for _, a := range w.actors {
 			if a.end == nil || a.node != inst.node {
 				continue
